@@ -18,7 +18,7 @@ def handleRange (st : St) (op : String) (j : Json) : Option (D (St × Json)) :=
     let f ← nat (← field j "from")
     let t ← nat (← field j "to")
     let sl ← slice (← field j "slice")
-    return (st, match fitsTrivially S d f t sl with
+    return (st, match fitsTriviallyO S d f t sl with
       | some b => ok (Json.bool b)
       | none => eRaises)
   | "replaceStepTrivial" => some do
